@@ -457,3 +457,79 @@ def z3mcs(rep, ex: Explorer, cls: str, prop_three_way=True):
                 rep.check(back and len(appended) == 1 and okb, "Z3MCS.block", site, "blocking constraint", "a found set S is recorded and blocked by ⋁_{c∈S} ¬falsification(c); the enumeration continues",
                           extracted=f"loop back={back}, recorded={len(appended)}, constraint {got}", required="⋁_{c∈S} ¬(c.A∧¬c.B)", function=site)
     rep.floor(f"Z3MCS paths of {cls.rsplit('.', 1)[1]}", n, 4)
+
+
+def budgeted_checks(rep, ex: Explorer, be):
+    """CHECK.three-way outside the enumeration: every check() of a z3.Optimize (it carries the remaining budget as its
+    timeout, so it may answer `unknown`) in the operator's `_inference` and `_rec_inference`: on the path where it answers
+    `unknown` nothing is returned - the expiry is raised.  (A plain z3.Solver has no timeout; its checks are two-valued.)"""
+    from . import mcsops
+
+    n = 0
+    groups = []
+    site_e, paths_e = mcsops.entry_paths(None, ex, be)
+    groups.append((site_e, paths_e))
+    qual = f"{be.cls}._rec_inference"
+    groups.append((fn_label(ex.prog, qual), ex.run(qual, be.rec_setup(), summaries=be.summaries(), key=f"wrec-{be.name}", hooks=be.hooks())))
+    for site, paths in groups:
+        seen = set()
+        for p in paths:
+            api = {}
+            line = {}
+            for ev, Q in iter_events(p.events):
+                if ev.kind == "query":
+                    api[ev.data.get("qid")] = ev.data.get("api")
+                    line[ev.data.get("qid")] = getattr(ev.node, "lineno", "?")
+            for key, val in p.decisions:
+                if key[0] != "check" or api.get(key[1]) != "z3.Optimize":
+                    continue
+                n += 1
+                if val != "unknown":
+                    continue
+                flagged = p.outcome[0] == "raise" and p.outcome[1].cls == "TimeoutError"
+                where = f"{site}:{line.get(key[1])}"
+                if (where, flagged) in seen:
+                    continue
+                seen.add((where, flagged))
+                rep.check(flagged, "CHECK.three-way", where, "unknown outside the enumeration", "an optimizer that gives up (`unknown`: its timeout is the remaining budget) is not read as an answer: the expiry is raised",
+                          extracted=f"outcome {p.outcome[0]} {p.outcome[1]!r}"[:120], required="raise TimeoutError", function=site)
+    return n
+
+
+def shared_defaults(rep, ex: Explorer, modules=("inference.optimizer", "inference.tseitin_transformation")):
+    """MCS.loop [defaults]: a parameter whose default is a mutable literal (`ignore=[]`) is one object shared by every call
+    that omits the argument.  Reading it is harmless; a function that changes it in place (`+=`, append / extend / add /
+    update / item store ...) leaves the change for every later call, on any optimizer and any base."""
+    import ast as _ast
+
+    n = 0
+    MUT = ("append", "extend", "insert", "add", "update", "remove", "discard", "pop", "clear", "sort", "setdefault", "popitem")
+    for q, fi in sorted(ex.prog.functions.items()):
+        if fi.module not in modules:
+            continue
+        a = fi.node.args
+        params = a.posonlyargs + a.args
+        defaults = dict(zip([p_.arg for p_ in params[len(params) - len(a.defaults):]], a.defaults))
+        defaults.update({p_.arg: d for p_, d in zip(a.kwonlyargs, a.kw_defaults) if d is not None})
+        for name, d in defaults.items():
+            mutable = isinstance(d, (_ast.List, _ast.Dict, _ast.Set)) or (isinstance(d, _ast.Call) and isinstance(d.func, _ast.Name) and d.func.id in ("list", "dict", "set"))
+            if not mutable:
+                continue
+            n += 1
+            site = fn_label(ex.prog, q)
+            rebound = any(isinstance(x, _ast.Assign) and any(isinstance(t, _ast.Name) and t.id == name for t in x.targets) for x in _ast.walk(fi.node))
+            hit = None
+            for x in _ast.walk(fi.node):
+                if isinstance(x, _ast.AugAssign) and isinstance(x.target, _ast.Name) and x.target.id == name:
+                    hit = (x.lineno, f"{name} {type(x.op).__name__}= ...")
+                elif isinstance(x, _ast.Call) and isinstance(x.func, _ast.Attribute) and isinstance(x.func.value, _ast.Name) and x.func.value.id == name and x.func.attr in MUT:
+                    hit = (x.lineno, f"{name}.{x.func.attr}(...)")
+                elif isinstance(x, _ast.Subscript) and isinstance(x.ctx, (_ast.Store, _ast.Del)) and isinstance(x.value, _ast.Name) and x.value.id == name:
+                    hit = (x.lineno, f"{name}[...] = ...")
+                if hit:
+                    break
+            if hit and rebound:
+                raise AnalysisError(f"{site}: the parameter {name} (mutable default) is both rebound and changed in place")
+            rep.check(hit is None, "MCS.loop", f"{site}:{hit[0]}" if hit else site, f"default of {name}", "the shared default object of a parameter is never changed in place (what one call adds is there for every later call that omits the argument)",
+                      extracted=f"{hit[1]} on the parameter whose default is the literal {_ast.unparse(d)}" if hit else "read only", required="copy before changing", function=site)
+    return n
